@@ -42,7 +42,7 @@ class Form:
 
     def instantiate(self, ctx):
         text = "\n".join(self.lines + self.body_heads)
-        nn = max([int(text[i + 2]) for i in range(len(text) - 2) if text[i:i + 2] == "{n" and text[i + 2].isdigit()] or [0])
+        nn = max([int(text[i + 2]) for i in range(len(text) - 2) if text[i:i + 2] in ("{n", "{N") and text[i + 2].isdigit()] or [0])
         ne = max([int(text[i + 2]) for i in range(len(text) - 2) if text[i:i + 2] == "{e" and text[i + 2].isdigit()] or [0])
         names, ctx = _new(ctx, nn)
         eids, ctx = _eids(ctx, ne)
@@ -103,7 +103,8 @@ SIMPLE = [
     S("comp-walrus", "{n1} = sum([({n2} := u + {p}) for u in R(E({e1}, 2))])", cur="n2"),
     S("class", ["class {N1}:", "    at = E({e1}, {p})", "{n2} = {N1}.at"], cur="n2"),
     S("expr", "E({e1}, {p})"),
-    S("class-global", ["class {N1}:", "    global G", "    G = E({e1}, {p})", "{n2} = G + 1"], cur="n2"),
+    # (f itself does not read G afterwards: ptera documents that globals are read at entry)
+    S("class-global", ["class {N1}:", "    global G", "    G = E({e1}, {p})"]),
     S("aug-walrus", "{p} += ({n1} := E({e1}, 1))", cur="n1"),
     S("unpack-walrus", "{n1}, {n2} = ({n3} := E({e1}, {p})), E({e2}, {p})", cur="n2"),
     S("chain-walrus", "{n1} = {n2} = ({n3} := E({e1}, {p})) + 1", cur="n2"),
